@@ -435,7 +435,7 @@ func runTObject(c *load.Ctx, r *report.RuleResult) {
 
 func init() {
 	register(&Rule{ID: "T-list", Min: 20, Run: runTList,
-		Doc: "which validators a value position gets: a node with a types list is validated by the validators of the named types, plus a null-admitting validator iff nullable is present (at every level, also for a type whose own root is a reference); a node with type any (and no const) gets the any validator whatever the example's kind; otherwise arrays, objects and scalars get their own validator"})
+		Doc: "which validators a value position gets: a node with a types list is validated by the validators of the named types, plus a validator that admits null and nothing else iff nullable is present (at every level, also for a type whose own root is a reference; T-null decides what that validator admits); a node with type any (and no const) gets the any validator whatever the example's kind; otherwise arrays, objects and scalars get their own validator"})
 }
 
 func runTList(c *load.Ctx, r *report.RuleResult) {
@@ -452,10 +452,13 @@ func runTList(c *load.Ctx, r *report.RuleResult) {
 		in.Effect("type-validators(" + strings.Trim(pe.Show(args[1]), "‹›") + ")")
 		return nil, true
 	}
-	for _, ctor := range []string{"newLiteralValidator", "newArrayValidator", "newObjectValidator", "newAnyNestedStructureValidator"} {
+	for _, ctor := range []string{"newLiteralValidator", "newArrayValidator", "newObjectValidator", "newAnyNestedStructureValidator", "newNullValidator"} {
 		ctor := ctor
 		f := c.Func(pkgValidator, ctor)
 		if f == nil {
+			if ctor == "newNullValidator" {
+				continue // its absence shows as a wrong cell below
+			}
 			r.Unk("anchor|validator."+ctor, "", "not found")
 			return
 		}
@@ -483,7 +486,9 @@ func runTList(c *load.Ctx, r *report.RuleResult) {
 			case total[inds[0]] == "true":
 				want = append(want, "type-validators(TypesList.typeNames)")
 				if total[inds[1]] == "true" {
-					want = append(want, "newLiteralValidator")
+					// the null that nullable admits in place of the referenced types — and only the null:
+					// a literal validator for the referencing node takes every value of the example's kind
+					want = append(want, "newNullValidator")
 				}
 			case total[inds[2]] == "true" && total[inds[3]] == "false":
 				want = []string{"newAnyNestedStructureValidator"}
@@ -992,5 +997,108 @@ func runTOrList(c *load.Ctx, r *report.RuleResult) {
 		} else {
 			r.OK(key, pos, "every list grows by exactly one entry")
 		}
+	}
+}
+
+func init() {
+	register(&Rule{ID: "T-null", Min: 2, Run: runTNull,
+		Doc: "the validator that nullable adds next to the validators of referenced types admits null and nothing else: nullValidator.feed, interpreted with the lexeme type and the equality of the literal's text with null as atoms, stays alive on the begin of a literal, completes on the end of a literal iff the text is null, and rejects everything else with a library error"})
+}
+
+func runTNull(c *load.Ctx, r *report.RuleResult) {
+	fn := c.Func(pkgValidator, "nullValidator.feed")
+	nvT := namedType(c, pkgValidator, "nullValidator")
+	if fn == nil || nvT == nil {
+		r.Bad("null|validator", "", "there is no null-only validator (validator.nullValidator): nullable on a type reference is then served by a validator that takes more than null")
+		return
+	}
+	e := newAbsNodeEnv(c)
+	lexTypeFn := c.Func("internal/lexeme", "LexEvent.Type")
+	lexValueFn := c.Func("internal/lexeme", "LexEvent.Value")
+	catch := c.Func("internal/lexeme", "CatchLexEventError")
+	if lexTypeFn == nil || lexValueFn == nil {
+		r.Unk("anchor|lexeme.LexEvent accessors", "", "not found")
+		return
+	}
+	if catch != nil {
+		e.cfg.Opaque[catch.String()] = true
+	}
+	e.cfg.Intrinsics[lexTypeFn.String()] = func(in *pe.Interp, args []pe.Value) (pe.Value, bool) {
+		return pe.NewSym("lex.type", lexTypeFn.Signature.Results().At(0).Type()), true
+	}
+	e.cfg.Intrinsics[lexValueFn.String()] = func(in *pe.Interp, args []pe.Value) (pe.Value, bool) {
+		return pe.NewSym("lex.value", lexValueFn.Signature.Results().At(0).Type()), true
+	}
+	if f := c.Func(pkgBytes, "Bytes.String"); f != nil {
+		e.cfg.Intrinsics[f.String()] = func(in *pe.Interp, args []pe.Value) (pe.Value, bool) {
+			return pe.NewSym(strings.Trim(pe.Show(args[0]), "‹›"), types.Typ[types.String]), true
+		}
+	}
+	if f := c.Func(pkgJSON, "Guess"); f != nil {
+		e.cfg.Opaque[f.String()] = true
+	}
+	for _, m := range []string{"GuessData.LiteralJsonType", "GuessData.JsonType"} {
+		if f := c.Func(pkgJSON, m); f != nil {
+			e.cfg.Intrinsics[f.String()] = func(in *pe.Interp, args []pe.Value) (pe.Value, bool) {
+				return pe.NewSym("kind", f.Signature.Results().At(0).Type()), true
+			}
+		}
+	}
+	pos := c.Pos(fn.Pos())
+	outs := pe.ExploreFn(e.cfg, func(in *pe.Interp) pe.Value {
+		v := symStruct(in, nvT, "v", nil)
+		return in.Call(fn, []pe.Value{v, pe.NewSym("lex", fn.Params[1].Type())})
+	})
+	counts := map[string]int{}
+	bad := map[string]string{}
+	for _, o := range outs {
+		val := o.ChoiceMap()
+		lt := val["lex.type"]
+		isNull := ""
+		for n, l := range val {
+			if strings.HasPrefix(n, "eq(") && strings.Contains(n, "null") {
+				isNull = l
+			}
+		}
+		key := fmt.Sprintf("null|event=%s|text-is-null=%s", lt, orDash(isNull, isNull != ""))
+		counts[key]++
+		if bad[key] != "" {
+			continue
+		}
+		if o.Undecided != "" {
+			bad[key] = "not interpretable: " + o.Undecided
+			continue
+		}
+		verdict, _ := verdictOf(o)
+		ret := pe.Show(o.Ret)
+		switch lt {
+		case "LiteralBegin":
+			if o.Panicked || ret != "(nil,false)" {
+				bad[key] = "the begin of a literal must keep the validator waiting: " + o.Exit()
+			}
+		case "LiteralEnd":
+			switch {
+			case isNull == "":
+				bad[key] = "the end of a literal is decided without asking whether its text is null: " + o.Exit()
+			case isNull == "true" && (o.Panicked || ret != "(nil,true)"):
+				bad[key] = "null is not accepted: " + o.Exit()
+			case isNull == "false" && verdict != "reject":
+				bad[key] = "a literal other than null is not rejected: " + o.Exit()
+			}
+		default:
+			if verdict != "reject" {
+				bad[key] = "an event that is not a literal is not rejected: " + o.Exit()
+			}
+		}
+	}
+	for _, k := range sortedKeys(counts) {
+		if bad[k] != "" {
+			r.Bad(k, pos, bad[k])
+		} else {
+			r.OK(k, pos, fmt.Sprintf("%d path(s)", counts[k]))
+		}
+	}
+	if len(counts) == 0 {
+		r.Unk("anchor|paths", pos, "no path")
 	}
 }
